@@ -363,7 +363,10 @@ class CallMixin(object):
       for k in s1.heap:
         if k in st.heap and s1.heap[k] is not st.heap[k]:
           raise Unsupported('pure function %s modifies %s' % (fn.qual, k))
-      extra = s1.pc[n0:]
+      extra = [e for e in s1.pc[n0:] if e.get_id() not in s1.wf_ids]
+      for e in s1.pc[n0:]:
+        if e.get_id() in s1.wf_ids:
+          st.assume_wf(e)        # well-formedness facts hold on every path: not part of the branch condition
       vals.append((z3.And(*extra) if extra else z3.BoolVal(True), v, s1))
     if not vals:
       raise Unsupported('pure function %s has no feasible path' % fn.qual)
@@ -474,6 +477,8 @@ class CallMixin(object):
         # allocates=True: nothing of a 'final' class is created (checked at the callee's exit);
         # allocates='any': the callee's ensures must describe what it creates
         st.assume(self.no_finals_between(st, st.alloc, a))
+      else:
+        st.maybe_final = True
       st.alloc = a
 
   # ------------------------------------------------------------------ externs
